@@ -12,11 +12,10 @@ Lemma real_svg_is_passthrough cfg seed border scale input toks :
 Proof. intros Hr Hn Hs. unfold transform_doc. rewrite Hr, Hn, Hs. reflexivity. Qed.
 
 Lemma real_svg_agrees_with_passthrough_doc cfg seed border scale input out :
-  passthrough_doc input = Some (Some out) ->
-  (forall toks, read_xml input = Some toks -> nesting_ok toks [] = true) ->
-  transform_doc cfg seed border scale input = Ok out.
+  passthrough_doc input = Some (Some out) -> transform_doc cfg seed border scale input = Ok out.
 Proof.
-  unfold passthrough_doc. intros H Hn. destruct (read_xml input) as [toks|] eqn:Hr; [|discriminate].
+  unfold passthrough_doc. intros H. destruct (read_xml input) as [toks|] eqn:Hr; [|discriminate].
+  destruct (nesting_ok toks []) eqn:Hn; [|discriminate].
   destruct (is_real_svg toks) eqn:Hs; [|discriminate]. injection H as <-.
   eapply real_svg_is_passthrough; eauto.
 Qed.
